@@ -4,7 +4,7 @@ use simcore::{Components, Obs, Scenario, Tier};
 
 use crate::cfg::{Cfg, ProbeKind, Step};
 use crate::world::{Report, StepOutcome, World, N_POOLS};
-use crate::{c02, c03, c04, c05, c06, gen};
+use crate::{c02, c03, c04, c05, c06, c07, gen};
 
 pub struct MarketHistory {
     pub focus: &'static str,
@@ -130,6 +130,7 @@ impl Scenario for MarketHistory {
                         ProbeKind::FeesDirect { amount, discount, pos } => {
                             c02::probe_fees_direct(&w, amount.0, discount.0, *pos, obs)
                         }
+                        ProbeKind::SplitDistribution { .. } | ProbeKind::OpenClose { .. } | ProbeKind::PnlDirection { .. } => {}
                     }
                     let name = match kind {
                         ProbeKind::LpRoundTrip { .. } => "lp_round_trip",
@@ -137,6 +138,9 @@ impl Scenario for MarketHistory {
                         ProbeKind::PositionImpactRoundTrip { .. } => "position_impact_round_trip",
                         ProbeKind::Discount { .. } => "discount_fork",
                         ProbeKind::FeesDirect { .. } => "fees_direct",
+                        ProbeKind::SplitDistribution { .. } => "split_distribution",
+                        ProbeKind::OpenClose { .. } => "open_close",
+                        ProbeKind::PnlDirection { .. } => "pnl_direction",
                     };
                     obs.outcome("oracle", name, "ok");
                     obs.event(|| format!("probe {name}"));
@@ -171,6 +175,7 @@ impl Scenario for MarketHistory {
                     c02::after_step(&w, &out, obs);
                     c03::after_step(&w, &out, obs);
                     c06::after_step(&w, &out, obs);
+                    c07::after_step(&w, &out, obs);
                     if let Report::Decrease(r) = &out.report {
                         if r.insolvent_close_step().is_some() {
                             obs.probe("insolvent_close");
